@@ -183,6 +183,87 @@ fn c10_full_chance_enumerates_all() {
     core::mem::forget(node);
 }
 
+/// A payoff cache that knows every node except the root: the traversal code around the kernels
+/// (`recurse_multi`: cache lookup, average-strategy update with the OWN reach, regret correction,
+/// chance expectation) runs for real on the root while the recursion ends at the children.
+struct ChildCache {
+    root: *const Node,
+    kids: [*const Node; 2],
+    vals: [f64; 2],
+}
+
+impl CachedPayoff for ChildCache {
+    fn get_payoff(&self, node: &Node) -> Option<f64> {
+        let p = node as *const Node;
+        if p == self.root {
+            None
+        } else if p == self.kids[0] {
+            Some(self.vals[0])
+        } else if p == self.kids[1] {
+            Some(self.vals[1])
+        } else {
+            Some(f64::NAN)
+        }
+    }
+}
+
+// NOTE: the decision-node arm of `recurse_multi` cannot be executed symbolically: AtomicF64::fetch_add
+// is a compare-exchange retry loop (portable_atomic) that CBMC cannot bound (timeout at 600 s).
+
+/// `recurse_multi` on a chance node (1/4, 3/4) whose children are cached: the value is the
+/// probability-weighted sum over every outcome; a cached root is returned as is.
+#[kani::proof]
+#[kani::unwind(3)]
+fn c06_recurse_multi_chance_and_cached_root() {
+    let u = [pay(), pay()];
+    let node = Node::Chance(Chance { outcomes: Box::new([Node::Terminal(9.0), Node::Terminal(-9.0)]) as Box<[Node]>, infoset: 0 });
+    let kids = match &node {
+        Node::Chance(c) => [&c.outcomes[0] as *const Node, &c.outcomes[1] as *const Node],
+        _ => unreachable!(),
+    };
+    let probs = [0.25, 0.75];
+    let chance = [FullChance(&probs)];
+    let none: [MutexRegretInfoset; 0] = [];
+    let cache = ChildCache { root: &node as *const Node, kids, vals: u };
+    let v = recurse_multi(&node, &chance[..], [&none[..], &none[..]], q3(), [q3(), q3()], &cache);
+    kani::cover!(u[0] != u[1], "outcome values differ");
+    assert!(near(v, 0.25 * u[0] + 0.75 * u[1]), "C08 step: chance node value is not the probability-weighted sum over every outcome");
+    // the root itself cached: nothing below is visited, the cached value is the result
+    let cache2 = ChildCache { root: core::ptr::null(), kids: [&node as *const Node, core::ptr::null()], vals: [5.0, 0.0] };
+    let v2 = recurse_multi(&node, &chance[..], [&none[..], &none[..]], 1.0, [1.0, 1.0], &cache2);
+    assert!(v2 == 5.0, "C06 cache: a cached node must return its cached payoff");
+    core::mem::forget(node);
+}
+
+/// C12 — player mirror: the step at a player-two node with payoffs -u and the two reach
+/// components exchanged accumulates exactly the regrets of the player-one step with payoffs u, and
+/// returns the negated value. Payoff scaling by 2 scales value and regret increments by 2.
+#[kani::proof]
+#[kani::unwind(3)]
+fn c12_step_mirror_and_scale() {
+    let u = [pay(), pay()];
+    let a: f64 = if kani::any() { 0.25 } else { 0.5 };
+    let st = [a, 1.0 - a];
+    let (pc, pp) = (q3(), [q3(), q3()]);
+    let run = |who: PlayerNum, pay: [f64; 2], reach: [f64; 2]| -> (f64, [f64; 2]) {
+        let node = Player { num: who, infoset: 0, actions: Box::new([Node::Terminal(pay[0]), Node::Terminal(pay[1])]) as Box<[Node]> };
+        let mut r = [0.0, 0.0];
+        let (value, sub) = recurse_player(&node, pc, reach, &st, r.iter_mut(), |next, _| match next {
+            Node::Terminal(x) => *x,
+            _ => 0.0,
+        });
+        core::mem::forget(node);
+        (value, [r[0] - sub, r[1] - sub])
+    };
+    let (v1, r1) = run(PlayerNum::One, u, pp);
+    let (v2, r2) = run(PlayerNum::Two, [-u[0], -u[1]], [pp[1], pp[0]]);
+    let (v3, r3) = run(PlayerNum::One, [2.0 * u[0], 2.0 * u[1]], pp);
+    kani::cover!(u[0] != u[1] && pp[0] != pp[1], "asymmetric payoffs and reach");
+    assert!(v2 == -v1, "C12 mirror: exchanging the players while negating payoffs must negate the node value");
+    assert!(r2[0] == r1[0] && r2[1] == r1[1], "C12 mirror: exchanging the players while negating payoffs must give the same regrets");
+    assert!(v3 == 2.0 * v1 && r3[0] == 2.0 * r1[0] && r3[1] == 2.0 * r1[1], "C12 scale: multiplying payoffs by c must multiply value and regret increments by c");
+}
+
 #[cfg(test)]
 #[path = "/verif/.work/playback/vsteps.rs"]
 mod pb;
